@@ -1,3 +1,111 @@
-import WireV.Sets
+import WireP.Lemmas.SolveExample
+/-! # C08 — unused providers, values, bindings, fields and imported sets are reported
+
+Property theorems only; lemmas in `WireP/Lemmas/Solve*.lean`; model `WireV.svStep` /
+`verifyArgsUsed` / `solve`.
+
+Deviations from the brief: `used_spec` needs `GivenLeaf pm given` for its "if" half
+(counterexample `pmB` below) and does *not* need `SrcTotal pm sm`; `unused_reported` is stated
+per identity (`Err.unusedProv i`), since an error carries only the identity. -/
 namespace WireP.C08
+open WireV WireP.Solve
+
+/-- **What is marked used**: without errors, a source is marked exactly when it is the source of
+    some type that the requested type needs and that is not given. -/
+theorem used_spec_partial {pm : PMap} {sm : SMap} {given : List Ty} {out : Ty}
+    (hH : H pm given) (hl : GivenLeaf pm given) (he : (final pm sm given out).errs = [])
+    (src : SrcId) :
+    src ∈ (final pm sm given out).used ↔
+      ∃ t, Reach pm out t ∧ t ∉ given ∧ look t sm = some src :=
+  WireP.Solve.used_spec_partial hH hl he src
+
+/-- the "only if" half holds without `GivenLeaf` and whether or not there are errors -/
+theorem used_sound {pm : PMap} {sm : SMap} {given : List Ty} {out : Ty} (hH : H pm given) :
+    ∀ src ∈ (final pm sm given out).used,
+      ∃ t, Reach pm out t ∧ t ∉ given ∧ look t sm = some src :=
+  WireP.Solve.used_sound hH.concClosed hH.givenNodup
+
+/-- **Exactly the unused items are reported** (providers; the other four kinds below). -/
+theorem unused_reported (d : SetDef) (impIds : List Nat) (used : List SrcId) (i : Nat) :
+    Err.unusedProv i ∈ verifyArgsUsed d impIds used ↔
+      (∃ p ∈ d.provs, p.id = i) ∧ SrcId.prov i ∉ used :=
+  WireP.Solve.unusedProv_mem d impIds used i
+
+theorem unused_reported_set (d : SetDef) (impIds : List Nat) (used : List SrcId) (i : Nat) :
+    Err.unusedSet i ∈ verifyArgsUsed d impIds used ↔ i ∈ impIds ∧ SrcId.imp i ∉ used :=
+  WireP.Solve.unusedSet_mem d impIds used i
+
+theorem unused_reported_val (d : SetDef) (impIds : List Nat) (used : List SrcId) (i : Nat) :
+    Err.unusedVal i ∈ verifyArgsUsed d impIds used ↔
+      (∃ v ∈ d.vals, v.id = i) ∧ SrcId.val i ∉ used :=
+  WireP.Solve.unusedVal_mem d impIds used i
+
+theorem unused_reported_bnd (d : SetDef) (impIds : List Nat) (used : List SrcId) (i : Nat) :
+    Err.unusedBnd i ∈ verifyArgsUsed d impIds used ↔
+      (∃ b ∈ d.bnds, b.id = i) ∧ SrcId.bnd i ∉ used :=
+  WireP.Solve.unusedBnd_mem d impIds used i
+
+theorem unused_reported_fld (d : SetDef) (impIds : List Nat) (used : List SrcId) (i : Nat) :
+    Err.unusedFld i ∈ verifyArgsUsed d impIds used ↔
+      (∃ f ∈ d.flds, f.id = i) ∧ SrcId.fld i ∉ used :=
+  WireP.Solve.unusedFld_mem d impIds used i
+
+/-- `verifyArgsUsed` reports nothing else -/
+theorem unused_only (d : SetDef) (impIds : List Nat) (used : List SrcId) (e : Err)
+    (h : e ∈ verifyArgsUsed d impIds used) :
+    (∃ i, e = .unusedSet i) ∨ (∃ i, e = .unusedProv i) ∨ (∃ i, e = .unusedVal i) ∨
+      (∃ i, e = .unusedBnd i) ∨ (∃ i, e = .unusedFld i) :=
+  WireP.Solve.verifyArgsUsed_kinds d impIds used e h
+
+/-- **Unused items block output**: `solve` hands out a call list only if nothing is unused. -/
+theorem solve_ok_used {pm : PMap} {sm : SMap} {d : SetDef} {impIds : List Nat}
+    {given : List Ty} {out : Ty} {cs : List Call}
+    (h : solve pm sm d impIds given out = .ok cs) :
+    verifyArgsUsed d impIds (final pm sm given out).used = [] :=
+  (WireP.Solve.solve_ok h).2.2.1
+
+/-- end to end: if `solve` succeeds, every provider of the set is the source of a type the
+    requested type needs (likewise for the other kinds, by `verifyArgsUsed_nil_iff`) -/
+theorem solve_ok_all_needed {pm : PMap} {sm : SMap} {d : SetDef} {impIds : List Nat}
+    {given : List Ty} {out : Ty} {cs : List Call} (hH : H pm given)
+    (h : solve pm sm d impIds given out = .ok cs) :
+    ∀ p ∈ d.provs, ∃ t, Reach pm out t ∧ t ∉ given ∧ look t sm = some (.prov p.id) :=
+  fun p hp =>
+    WireP.Solve.used_sound hH.concClosed hH.givenNodup _
+      (((WireP.Solve.verifyArgsUsed_nil_iff d impIds _).mp (WireP.Solve.solve_ok h).2.2.1).2.1 p hp)
+
+/-! ## non-vacuity -/
+
+open WireP.Solve.Ex
+
+example : H pmEx [0] ∧ GivenLeaf pmEx [0] ∧ (final pmEx smEx [0] 7).errs = [] :=
+  ⟨hEx, leafEx, by decide⟩
+example : ∀ k ∈ [0, 1, 2, 3, 4, 5, 6, 7, 8], (look k pmEx).isSome = (look k smEx).isSome :=
+  srcTotalEx
+/-- every source but the injector argument is marked (the binding `40` included) -/
+example : ∀ src ∈ [SrcId.val 10, .prov 20, .prov 21, .prov 22, .prov 23, .bnd 40, .fld 30],
+    src ∈ (final pmEx smEx [0] 7).used := by decide
+example : SrcId.arg 0 ∉ (final pmEx smEx [0] 7).used := by decide
+example : verifyArgsUsed dEx [] (final pmEx smEx [0] 7).used = [] := by decide
+/-- one more value in the set that nothing needs: reported, and `solve` refuses -/
+example : verifyArgsUsed dEx' [] (final pmEx smEx [0] 7).used = [Err.unusedVal 11] := by decide
+example : solve pmEx smEx dEx' [] [0] 7 = .errs [Err.unusedVal 11] := rfl
+example : solve pmEx smEx dEx [] [0] 7 = .ok (final pmEx smEx [0] 7).calls := rfl
+/-- an imported set none of whose types is needed is reported as well -/
+example : verifyArgsUsed dEx [9] (final pmEx smEx [0] 7).used = [Err.unusedSet 9] := by decide
+
+/-- `GivenLeaf` cannot be dropped from `used_spec_partial`: with a given type `0` that also has a
+    provider needing `1`, `H` and `SrcTotal` hold and there is no error; the value `1` is
+    reachable, not given and has a source, but is not marked used. -/
+example : H pmB [0] ∧ SrcTotal pmB smB ∧ (final pmB smB [0] 0).errs = [] ∧
+    Reach pmB 0 1 ∧ 1 ∉ [0] ∧ look 1 smB = some (.val 2) ∧
+    SrcId.val 2 ∉ (final pmB smB [0] 0).used := by
+  refine ⟨hB, ?_, by decide, reachB1, by decide, by decide, by decide⟩
+  intro k
+  by_cases h0 : k = 0
+  · subst h0; decide
+  · by_cases h1 : k = 1
+    · subst h1; decide
+    · simp [pmB, smB, look, h0, h1]
+
 end WireP.C08
